@@ -125,6 +125,15 @@ def program(t, form):
         if form.startswith("await"):
             return flows + f"flow main\n  await {g}\n  send Marker()\n  match Done()\n"
         return flows + f"flow main\n  when {g}\n    send Marker()\n  match Done()\n"
+    if form.startswith("body_of_when_or:"):
+        # the group statement is a statement of the body of a `when` case whose condition has two alternatives (the
+        # body is expanded once per alternative); the case is entered by the event Go before the group's events come
+        inner = form.split(":")[1]
+        if inner == "match_events":
+            stmt, pre = "match " + show(t, lambda i: f"E{i}()"), ""
+        else:
+            stmt, pre = "await " + show(t, lambda i: f"f{i}"), flows
+        return pre + f"flow main\n  when Go() or Go2()\n    {stmt}\n    send Marker()\n  match Done()\n"
     if form == "await_flows":
         g = show(t, lambda i: f"f{i}")
         return flows + f"flow main\n  await {g}\n  send Marker()\n  match Done()\n"
@@ -240,9 +249,13 @@ def explore(task):
     if cancel:
         fixed += [("internal", "StopFlow", {"flow_id": f"f{i}"}) for i in lv]
 
+    in_body = form.startswith("body_of_when_or:")
+
     def alphabet(state, node):
         if node.depth == 0:
             return [("start_main",)]
+        if in_body and node.depth == 1:
+            return [("ext", "Go", {})]      # enter the case: the group statement becomes active now
         return fixed
 
     def monitor(ex, prev, aev, conc, taken, nxt, pops):
@@ -306,7 +319,7 @@ def explore(task):
         src,
         alphabet,
         monitors=[monitor, monitor_after] + _c09(),
-        depth=1 + len(lv) + 2 + depth_extra + (1 if cancel else 0) + (len(lv) + 1 if loop_form else 0),
+        depth=1 + len(lv) + 2 + depth_extra + (1 if cancel else 0) + (len(lv) + 1 if loop_form else 0) + (1 if in_body else 0),
         stop_expand=stop_expand,
     )
     ex.run()
@@ -392,6 +405,10 @@ def tasks(tier):
         for inst in lv_:
             out.append((t, f"await_flows_instant:{inst}", 0))
             out.append((t, f"when_flows_instant:{inst}", 0))
+    # the group statement inside the body of a `when` case with a two-alternative condition
+    for t in formulas(3 if tier == "quick" else 4):
+        out.append((t, "body_of_when_or:match_events", 0))
+        out.append((t, "body_of_when_or:await_flows", 0))
     # three flows complete the same group statement on the same event (every position of the flow that ends)
     for t in formulas(2 if tier == "quick" else 3):
         for order in ("123", "213", "231"):
